@@ -28,6 +28,20 @@ import (
 	"strings"
 )
 
+// errReader fails every read with err.
+type errReader struct{ err error }
+
+func (r errReader) Read([]byte) (int, error) { return 0, r.err }
+
+// brokenBody returns a body that yields the bytes read from body before it
+// failed with err and then fails with the same error.
+func brokenBody(data []byte, err error, body io.Closer) io.ReadCloser {
+	return struct {
+		io.Reader
+		io.Closer
+	}{io.MultiReader(bytes.NewReader(data), errReader{err}), body}
+}
+
 // MessageView is a static view of an HTTP request or response.
 type MessageView struct {
 	message       []byte
@@ -113,6 +127,9 @@ func (mv *MessageView) SnapshotRequest(req *http.Request) error {
 
 	data, err := ioutil.ReadAll(req.Body)
 	if err != nil {
+		// The message may still be forwarded: hand back what was consumed,
+		// followed by the same error.
+		req.Body = brokenBody(data, err, req.Body)
 		return err
 	}
 	req.Body.Close()
@@ -185,6 +202,9 @@ func (mv *MessageView) SnapshotResponse(res *http.Response) error {
 
 	data, err := ioutil.ReadAll(res.Body)
 	if err != nil {
+		// The message may still be forwarded: hand back what was consumed,
+		// followed by the same error.
+		res.Body = brokenBody(data, err, res.Body)
 		return err
 	}
 	res.Body.Close()
